@@ -86,8 +86,33 @@ func bufKey(b []byte) []byte {
 	return buf[8 : 8+n] // spare capacity holds live caller data
 }
 
+// bufScribble: the call that received the pending key buffers has RETURNED (a lazy sequence value was handed back):
+// the buffers are checked now and then overwritten, as a caller reusing its buffer does; what the sequence
+// yields afterwards must not depend on them
+func bufScribble() {
+	if !bufOn {
+		return
+	}
+	pend := append([]bufCheck{}, bufPending...)
+	if msg := bufVerify(); msg != "" && bufEarly == "" {
+		bufEarly = msg
+	}
+	for _, c := range pend {
+		for j := range c.buf {
+			c.buf[j] = 0xEE
+		}
+	}
+}
+
+var bufEarly string
+
 func bufVerify() string {
 	defer func() { bufPending = bufPending[:0] }()
+	if bufEarly != "" {
+		m := bufEarly
+		bufEarly = ""
+		return m
+	}
 	for _, c := range bufPending {
 		n := len(c.orig)
 		for j := 0; j < 8; j++ {
@@ -122,6 +147,7 @@ func runPasses(s iter.Seq2[string, int], stops []int) string {
 		stopped := false
 		after := false
 		var sb strings.Builder
+		inner := ""
 		s(func(k string, v int) bool {
 			if stopped {
 				after = true
@@ -129,6 +155,20 @@ func runPasses(s iter.Seq2[string, int], stops []int) string {
 			}
 			fmt.Fprintf(&sb, " %s=%d", k, v)
 			calls++
+			if stop <= -2 && calls-1 == -(stop+2) {
+				// nested: the same sequence value ranged over completely from inside its own loop body
+				ic := 0
+				var isb strings.Builder
+				s(func(k2 string, v2 int) bool {
+					fmt.Fprintf(&isb, " %s=%d", k2, v2)
+					ic++
+					return ic < 1<<20
+				})
+				inner = strconv.Itoa(ic) + isb.String()
+			}
+			if calls >= 1<<20 {
+				return false
+			}
 			if stop >= 0 && calls-1 == stop {
 				stopped = true
 				return false
@@ -140,6 +180,9 @@ func runPasses(s iter.Seq2[string, int], stops []int) string {
 			p += " AFTERSTOP"
 		}
 		passes = append(passes, p)
+		if inner != "" {
+			passes = append(passes, inner)
+		}
 	}
 	return strings.Join(passes, " | ")
 }
@@ -206,7 +249,18 @@ func (se *session) do(toks []string, lineNo int) (res string) {
 			}
 		}
 		for _, m := range t.TakeAlias() {
-			se.side = append(se.side, sideViolation{lineNo, "C08", "a returned key does not stay as returned: " + m + " in " + strings.Join(toks, " ")})
+			// "keys are returned in their original form / through the codec's own decoding": C08 for collation trees,
+			// C09 for compound trees, C02 for the others
+			lbl := "C02"
+			if o := se.oracles[toks[1]]; o != nil {
+				switch {
+				case o.kind == "coll":
+					lbl = "C08"
+				case o.kind == "raw" || strings.HasPrefix(o.kind, "comp:"):
+					lbl = "C09"
+				}
+			}
+			se.side = append(se.side, sideViolation{lineNo, lbl, "a returned key does not stay as returned: " + m + " in " + strings.Join(toks, " ")})
 		}
 		if bufOn {
 			if msg := bufVerify(); msg != "" {
